@@ -156,6 +156,37 @@ Definition full_probe (p : params) (rq : request) : bool :=
   | _ => false
   end.
 
+(** what the property demands of a partial-probe IVF answer, evaluated on the implementation's own
+    centroids and lists (independent of the model's search): every returned id is stored in one of
+    the p clusters nearest to the query, and no eligible live vector of a cluster STRICTLY nearer
+    than the p-th nearest centroid is missing while a worse one (or a free slot) is present *)
+Definition probe_specb (p : params) (live : list (Z * vec)) (im : vstate) (rq : request) (pq : vec)
+           (r : list (Z * Z)) : bool :=
+  let cents := st_centroids im in
+  let np := r_nprobes rq in
+  if negb ((0 <? np) && (np <? Z.of_nat (length cents))) then true
+  else
+    let cdk := map (fun c => F32.key (F32.canon (dist (p_metric p) pq c))) cents in
+    let dp := nth (Z.to_nat (np - 1)) (isort (fun x => x) cdk) 0 in
+    let keyof := fun li => nth (Z.to_nat li) cdk 0 in
+    forallb (fun x => match find_entry im (fst x) with
+                      | Some (li, _) => keyof li <=? dp
+                      | None => false
+                      end) r &&
+    (negb (r_cutoff rq =? -1) ||
+     let lastk := F32.key (snd (last r (0, 0))) in
+     let fullk := (0 <? r_k rq) && (Z.of_nat (length r) =? r_k rq) in
+     forallb (fun lv =>
+        match find_entry im (fst lv) with
+        | Some (li, _) =>
+            if (keyof li <? dp) &&
+               (match r_docids rq with [] => true | ds => memz (fst lv) ds end)
+            then let d := F32.canon (dist (p_metric p) pq (snd lv)) in
+                 negb (thr_ok rq d) || memz (fst lv) (map fst r) || (fullk && (lastk <=? F32.key d))
+            else true
+        | None => true
+        end) live).
+
 Record hstate := { h_model : vstate; h_live : list (Z * vec); h_i : Z; h_weak : Z; h_impl : option vstate }.
 
 Definition step_check (p : params) (h : hstate) (o : vop) : hstate + list Z :=
@@ -217,6 +248,10 @@ Definition step_check (p : params) (h : hstate) (o : vop) : hstate + list Z :=
                         match single with
                         | Some pq => negb (full_probe p rq) || complete_results p (h_live h) rq pq out
                         | None => true
+                        end &&
+                        match single, h_impl h, p_kind p with
+                        | Some pq, Some im, KIVF => probe_specb p (h_live h) im rq pq out
+                        | _, _, _ => true
                         end in
           if negb (err =? 0) then inr (verdict false false [h_i h; 0])
           else
